@@ -384,7 +384,7 @@ func keyDom(key string) []*Val {
 	case "NStr":
 		d = pick("NStr", "empty", "ascii", "mixed")
 	case "SKey":
-		d = []*Val{handVal(L("SKey"), SKey{}), handVal(L("SKey"), SKey{A: "a", B: 1}), handVal(L("SKey"), SKey{A: "é\" ", B: 1<<53 + 1})}
+		d = []*Val{handVal(L("SKey"), SKey{}), handVal(L("SKey"), SKey{A: "a", B: 1}), handVal(L("SKey"), SKey{A: "é\"\u2028", B: 1<<53 + 1})}
 	case "any":
 		d = append(d, pick("string", "ascii")...)
 		d = append(d, pick("int", "one")...)
@@ -431,7 +431,13 @@ func structDom(s *Shape, l *leafDef, red bool) []*Val {
 			fdoms[i] = append(fdoms[i], dom(fs, true)...)
 		}
 	}
-	out := []*Val{{S: s, RV: reflect.Zero(t)}}
+	var zeroKids []*Val // the zero values of the fields (typed nil pointers, nil containers, ...)
+	for i := range l.sdef.fields {
+		if len(fdoms[i]) > 0 && fdoms[i][0] != nil {
+			zeroKids = append(zeroKids, fdoms[i][0])
+		}
+	}
+	out := []*Val{{S: s, RV: reflect.Zero(t), Kids: zeroKids}}
 	set := func(sv reflect.Value, i int, x *Val) {
 		if x != nil {
 			sv.FieldByName(l.sdef.fields[i].name).Set(x.RV)
